@@ -169,6 +169,55 @@ Definition run_seeds (ps : list Z) (vs : list (list Z)) : option (list (list Z))
   let all := concat (map entry_seeds (seq 0 entries)) in
   Some [concat all; [bz (pairwise_distinct all); 1]].
 
+(* ---- 6007 CKKS ckks_encrypt_sk / 6008 binary-FHE FheUint::encrypt_sk: the scheme layers hand their two sources to glwe_encrypt_(zero_)sk.
+   ps = [be; n; b; size; nk; ..; rank (6008); ..]; vs = [ua; e; ua'; e'] for the mask seed, the error seed and their flipped versions.
+   out = [mask columns 1..rank; [deterministic; mask_eq(other plaintext); mask_eq(e'); body_eq(e'); mask_eq(ua')]]: the mask is
+   `glwe_mask` of the stream of the MASK seed, whatever the plaintext, the metadata and the error seed *)
+Definition run_scheme (code : Z) (ps : list Z) (vs : list (list Z)) : option (list (list Z)) :=
+  let n := np ps 1 in let b := p ps 2 in let size := np ps 3 in let nk := p ps 4 in
+  let rank := if code =? 6007 then 1%nat else np ps 6 in
+  Some [of_cols n size (glwe_mask b n size rank (stream (v vs 0)));
+        [1; 1; 1; bz (errs_same_on_torus b nk (v vs 1) (v vs 3)); bz (eqlz (digits b (v vs 0)) (digits b (v vs 2)))]].
+
+(* ---- 6009: generation of a composite binary-FHE evaluation key from ONE error source and ONE mask source
+   kinds ps[5]: 0 circuit-bootstrapping key, 1 BDD key without GLWE bridge, 2 BDD key with GLWE bridge (rank ps[12]).
+   The key is a sequence of segments encrypted one after the other on the two sources; a segment is `entries` gadget objects of
+   the same shape: (is_ggsw, entries, dnum, rank_in, rank_out).
+     circuit-bootstrapping key = log2 n automorphism keys (sorted Galois elements), the blind-rotation key (n_lwe GGSWs),
+                                 the GGLWE->GGSW key (rank GGLWEs);
+     BDD key = [GLWE switching key rank -> rank'] ; GLWE->LWE key (rank_out 1) ; circuit-bootstrapping key.
+   out = [masks of all cells, segment / entry / slot order; flags as 6007 + masks pairwise distinct] *)
+Definition kg_cbt (n rank nl da db dt : nat) : list (bool * nat * nat * nat * nat) :=
+  [(false, Nat.log2 n, da, rank, rank); (true, nl, db, rank, rank); (false, rank, dt, rank, rank)].
+Definition kg_segments (ps : list Z) : list (bool * nat * nat * nat * nat) :=
+  let n := np ps 1 in let rank := np ps 6 in let nl := np ps 7 in
+  let cbt := kg_cbt n rank nl (np ps 8) (np ps 9) (np ps 10) in
+  if p ps 5 =? 0 then cbt
+  else if p ps 5 =? 1 then (false, 1%nat, np ps 11, rank, 1%nat) :: cbt
+  else (false, 1%nat, np ps 13, rank, np ps 12) :: (false, 1%nat, np ps 11, np ps 12, 1%nat) :: cbt.
+(* masks (digit lists) of the cells of one segment starting at word `off` of the mask stream, and the next offset *)
+Definition kg_segment (b : Z) (n size : nat) (seg : bool * nat * nat * nat * nat) (off : nat) (ua : list Z) : list (list Z) * nat :=
+  match seg with
+  | (ggsw, entries, dnum, rin, rout) =>
+      let cols := if ggsw then S rout else rin in
+      let cells := (dnum * cols)%nat in
+      let clen := (rout * size * n)%nat in
+      (flat_map (fun entry => flat_map (fun row => map (fun col =>
+           let d := (entry * cells + (if ggsw then ggsw_draw_index rout row col else gglwe_draw_index dnum row col))%nat in
+           digits b (slice (off + d * clen) clen ua)) (seq 0 cols)) (seq 0 dnum)) (seq 0 entries),
+       (off + entries * cells * clen)%nat)
+  end.
+Fixpoint kg_masks (b : Z) (n size : nat) (segs : list (bool * nat * nat * nat * nat)) (off : nat) (ua : list Z) : list (list Z) :=
+  match segs with
+  | [] => []
+  | s :: t => let r := kg_segment b n size s off ua in fst r ++ kg_masks b n size t (snd r) ua
+  end.
+Definition run_keygen (ps : list Z) (vs : list (list Z)) : option (list (list Z)) :=
+  let n := np ps 1 in let b := p ps 2 in let size := np ps 3 in let nk := p ps 4 in
+  let ms := kg_masks b n size (kg_segments ps) O (v vs 0) in
+  Some [concat ms;
+        [1; 1; 1; bz (errs_same_on_torus b nk (v vs 1) (v vs 3)); bz (eqlz (digits b (v vs 0)) (digits b (v vs 2))); bz (pairwise_distinct ms)]].
+
 Definition run_c06 (code : Z) (ps : list Z) (vs : list (list Z)) : option (list (list Z)) :=
   match code with
   | 6001 => run_flip_glwe ps vs
@@ -176,6 +225,8 @@ Definition run_c06 (code : Z) (ps : list Z) (vs : list (list Z)) : option (list 
   | 6004 => run_gglwe_std ps vs
   | 6005 => run_ggsw_std ps vs
   | 6006 => run_seeds ps vs
+  | 6007 | 6008 => run_scheme code ps vs
+  | 6009 => run_keygen ps vs
   | 6020 => Some [v vs 0]
   | _ => None
   end.
